@@ -65,8 +65,11 @@ Reopen == /\ lost' = FALSE
 Refused == /\ nref' = nref + 1
            /\ UNCHANGED <<st, key, where, released, recv, ans, handed, lost, lostAt, stale, devs, closing, tcall, tret, refAt, life>>
 (* node state callbacks: after the shutdown was announced nothing else is announced *)
-StateCb(online, state) == /\ (life = "shutdown" => (state = "shutdown" /\ ~online))
-                          /\ life' = state
+StateCb(online, state, by) ==
+                          \* (a new request re-opens a shut down client: what a CALLER's thread announces is its business;
+                          \*  the client's own threads have nothing to announce after the shutdown)
+                          /\ (life = "shutdown" => ((state = "shutdown" /\ ~online) \/ by = "caller"))
+                          /\ life' = (IF life \in {"shutdown", "reopened"} /\ state # "shutdown" THEN "reopened" ELSE state)
                           /\ UNCHANGED <<st, key, where, released, recv, ans, handed, lost, lostAt, stale, devs, closing, tcall, tret, nref, refAt>>
 (* what the property allows a caller to get *)
 RetReply(i, gid) ==          \* its own reply, handed to nobody else
